@@ -617,7 +617,9 @@ func runC11(c *core.Ctx) core.Meta {
 		if !strings.HasPrefix(name, "defaultMemoryCopyMiddleware.") {
 			continue
 		}
-		g := core.BuildGraph(fn, 2, func(cal *ssa.Function) bool { return cal.Pkg == fn.Pkg && strings.HasPrefix(core.FuncName(cal), "defaultMemoryCopyMiddleware.") })
+		g := core.BuildGraph(fn, 2, func(cal *ssa.Function) bool {
+			return cal.Pkg == fn.Pkg && strings.HasPrefix(core.FuncName(cal), "defaultMemoryCopyMiddleware.")
+		})
 		for _, n := range g.Nodes {
 			if n.Frame.Parent != nil {
 				continue
